@@ -98,6 +98,11 @@ def gen_config(rng, name, it):
     return ctor, par, tag
 
 
+# arrays assigned to a transform's parameter vector by make_values, by id of the
+# transform: the caller goes on using (overwriting) them between forward and backward
+CALLER_ARRAYS = {}
+
+
 def make_values(name, ctor, params):
     """constructor, then whole-vector assignment of params / constants"""
     from hydrodiy.stat import transform
@@ -108,7 +113,10 @@ def make_values(name, ctor, params):
             continue
         vals = [params.get(str(n), float(v)) for n, v in zip(vec.names, vec.values)]
         if not any(v != v for v in vals):          # NaN constants stay unset
-            vec.values = vals
+            # handed over as a float64 array that the caller keeps (see CALLER_ARRAYS)
+            arr = np.array(vals, dtype=np.float64)
+            vec.values = arr
+            CALLER_ARRAYS.setdefault(id(t), []).append(arr)
         else:
             for n, v in zip(vec.names, vals):
                 if v == v:
